@@ -9,7 +9,7 @@
  * then behaves as the first matching rule says.
  *
  * Spec file: one rule per line, first match wins:
- *     <predicate in RPN> => exit=<n> out=<pct-text> err=<pct-text> [fault=<kind>]
+ *     <predicate in RPN> => exit=<n> out=<pct-text> err=<pct-text> [fault=<kind>] [delay=<us>]
  * Predicate atoms: all  has:T  count:T>=k  ntok>=k  ntok<=k  depth>=d
  *     hash:m:r1,r2,..  subseq:T1,T2,..  set:<path>  scoped  balanced
  *     first:T (first token after the first paren)  & | ! (RPN operators)
@@ -227,6 +227,7 @@ static int subseq(char *list) {
 }
 
 static uint64_t TD;
+static long rule_delay_us = 0; /* fixed delay of the matching rule (behaviour item delay=<us>) */
 
 static int eval_atom(char *a) {
   if (strcmp(a, "all") == 0) return 1;
@@ -358,6 +359,7 @@ int main(int argc, char **argv) {
         else if (strncmp(p, "out=", 4) == 0) { free(out); out = pctdecode(p + 4, strlen(p + 4)); }
         else if (strncmp(p, "err=", 4) == 0) { free(err); err = pctdecode(p + 4, strlen(p + 4)); }
         else if (strncmp(p, "fault=", 6) == 0) fault = strdup(p + 6);
+        else if (strncmp(p, "delay=", 6) == 0) rule_delay_us = atol(p + 6);
         else die("bad behaviour item");
       }
       break;
@@ -396,6 +398,7 @@ int main(int argc, char **argv) {
     }
   }
 
+  if (rule_delay_us > 0) usleep((useconds_t)rule_delay_us);
   if (fault && strncmp(fault, "burn4:", 6) == 0) burn4(atol(fault + 6));
   else if (fault) do_fault(fault);
   fputs(out, stdout); fputs(err, stderr);
